@@ -436,7 +436,7 @@ func proxyJudge(prop string) func(c *Ctx, req map[string]any, impl any, orc map[
 		for _, f := range normList(orc["forwarded"]) {
 			fm := f.(map[string]any)
 			if fm["method"] == "eth_sendRawTransaction" && fm["from"] != nil {
-				modelFwd = append(modelFwd, canon(map[string]any{"method": "eth_sendRawTransaction", "from": fm["from"]}))
+				modelFwd = append(modelFwd, canon(map[string]any{"method": "eth_sendRawTransaction", "from": fm["from"], "rec": fm["rec"]}))
 			} else {
 				modelFwd = append(modelFwd, canon(map[string]any{"method": fm["method"], "params": normParams(fm["params"])}))
 			}
@@ -449,7 +449,7 @@ func proxyJudge(prop string) func(c *Ctx, req map[string]any, impl any, orc map[
 				fs = append(fs, Finding{Kind: "violation", Region: "proxy.forward.version", Detail: "request forwarded without jsonrpc 2.0"})
 			}
 			if fm["method"] == "eth_sendRawTransaction" && fm["from"] != nil {
-				implFwd = append(implFwd, canon(map[string]any{"method": "eth_sendRawTransaction", "from": fm["from"]}))
+				implFwd = append(implFwd, canon(map[string]any{"method": "eth_sendRawTransaction", "from": fm["from"], "rec": fm["rec"]}))
 			} else {
 				implFwd = append(implFwd, canon(map[string]any{"method": fm["method"], "params": normParams(fm["params"])}))
 			}
